@@ -56,11 +56,13 @@ def _job(args):
 
 def run(report, fam, tier, seed, update_baseline=False):
     baseline = json.load(open(BASELINE)) if os.path.exists(BASELINE) else {}
-    budget = 60 if tier == "quick" else 180
+    budget = 30 if tier == "quick" else 90
     if tier == "quick" and baseline and not update_baseline:
         # quick: the kernels proved completely (and fast) on the unchanged tree
-        keys = {k.rsplit("|", 1)[0] for k, v in baseline.items() if v["seconds"] <= 4}
-        fam = [m for m in fam if m.key in keys]
+        # only members all of whose proved kernels were proved fast; at most ~250 members
+        slow = {k.rsplit("|", 1)[0] for k, v in baseline.items() if v["seconds"] > 3}
+        keys = {k.rsplit("|", 1)[0] for k in baseline} - slow
+        fam = [m for m in fam if m.key in keys][:250]
     t0 = time.time()
     with mp.get_context("fork").Pool(16) as pool:
         res = pool.map(_job, [(m, budget) for m in fam], chunksize=1)
